@@ -175,9 +175,11 @@ fn shaped(r: &mut Rng, kind: u32, x: bool, wild: bool) -> Vec<GRule> {
             match r.below(4) { 0 => core, 1 => seq(core, s(&strlit(r))), 2 => seq(s(&strlit(r)), seq(core, s(&strlit(r)))), _ => ctx(r, core, 0, n, &c) }
         }
         2 => { let inner = if r.chance(1, 3) { GE::RepMM(bx(small(r, 0, n, &c)), r.below(3) as u32, 1 + r.below(3) as u32) } else { small(r, 0, n, &c) };
-               let big = if wild && r.chance(1, 6) { [u32::MAX, u32::MAX - 1][r.below(2) as usize] } else { r.below(4) as u32 };
+               // u32::MAX makes `num + 1` overflow at once; u32::MAX - 1 does so only for e{n,} (`min + 2`), elsewhere it would build 2^32 clones
+               let huge = wild && r.chance(1, 6);
+               let big = if huge { u32::MAX } else { r.below(4) as u32 };
                let lo = if wild { 0 } else { 1 };
-               let e = match r.below(6) { 0 => GE::RepX(bx(inner), big.max(lo)), 1 => GE::RepMin(bx(inner), big), 2 => GE::RepMax(bx(inner), big.max(lo)),
+               let e = match r.below(6) { 0 => GE::RepX(bx(inner), big.max(lo)), 1 => GE::RepMin(bx(inner), if huge && r.chance(1, 2) { u32::MAX - 1 } else { big }), 2 => GE::RepMax(bx(inner), big.max(lo)),
                    3 => { let m = r.below(4) as u32; GE::RepMM(bx(inner), m, if wild && r.chance(1, 4) { r.below(3) as u32 } else { (m + r.below(3) as u32).max(1) }) }
                    4 => GE::Rep1(bx(inner)), _ => GE::RepMM(bx(inner), 2, if big > 3 { big } else { 3 }) };
                ctx(r, e, 0, n, &c) }
@@ -284,7 +286,7 @@ fn witnesses(w: &mut Out, x: bool) {
     if x {
         witness(w, "reponce", "r = { PUSH(\"x\") ~ PUSH(\"y\") ~ (!EOI ~ (POP | PEEK))+ }", "xyx", x);
         witness(w, "nodetag", "r = { PUSH(\"x\") ~ PUSH(\"y\") ~ #t = (POP | PEEK) }", "xyx", x);
-        witness(w, "itertag", "r = { PUSH(\"a\") ~ PUSH(\"b\") ~ (#t = POP)? ~ PEEK }", "aba", x);
+        witness(w, "itertag", "r = { PUSH(\"a\") ~ PUSH(\"b\") ~ (#t = p)? ~ PEEK }\np = { POP }", "aba", x);
     }
 }
 fn wrapped(e: &GE) -> bool { sexp(e).contains("(roe ") }
